@@ -500,4 +500,125 @@ theorem ptr_letter_conflict :
     ser gdepth (parsePtrP ps σp 2).1.heap (.ref 4) ≠ ser gdepth σp.heap (.ref 2) ∧
     ser gdepth (parsePtrP ps σp 2).1.heap (.ref 2) = ser gdepth σp.heap (.ref 2) := by decide
 
+/-! ### identity is a matter of bits (round 5)
+
+    `sameValue` decides whether the validator handed back THE value the caller's pointer refers to. A scalar leaf of the model
+    is its content id, and the id of a float is the id of its BIT PATTERN (`storex.FloatRepr`: a NaN of every payload and sign
+    has its own id, −0 and +0 have different ids). So `sameV` on leaves is bit-for-bit comparison, and it is REFLEXIVE on every
+    value — NaN leaves, aggregates (structs / arrays held by value) holding them at any nesting the fuel covers, references:
+    `sameV_refl`. That is what makes `wantSame` demand the caller's own pointer for a pointee that is, or holds, a NaN.
+
+    `sameVBy eq` is the other way of writing it — leaves compared with the language's `==` (`reflect.Value.Equal` on everything
+    Go can compare) — for an arbitrary leaf equality `eq`. Go's `==` on floats is not reflexive (NaN ≠ NaN) and not injective on
+    bits (−0 == +0): the witnesses below show that such a test (i) denies that a value is itself, so that validatePointer
+    answers a pointer to a private copy (`eq_variant_nan_own_pointer`), and (ii) takes two different values for one. -/
+
+/-- the aggregates of `v` nest less deep than the fuel -/
+def aggFits : Nat → GVal → Bool
+  | 0, _ => false
+  | f + 1, .agg fs => fs.all (fun p => aggFits f p.2)
+  | _ + 1, _ => true
+
+theorem zip_self_all {α : Type} (P : α × α → Bool) : ∀ (xs : List α), (xs.zip xs).all P = xs.all (fun x => P (x, x)) := by
+  intro xs
+  induction xs with
+  | nil => rfl
+  | cons x xs ih => simp [List.zip_cons_cons, List.all_cons, ih]
+
+/-- **`sameValue` is reflexive on EVERY value**: scalar leaves of any content id (the id of a float is the id of its bits: NaN of
+    any payload, −0, ±Inf included), nil, references, aggregates at any nesting the fuel covers. The `reflect.Value.Equal`
+    variant falsifies it (`eq_variant_not_refl`). -/
+theorem sameV_refl : ∀ (f : Nat) (v : GVal), aggFits f v = true → sameV f v v = true := by
+  intro f
+  induction f with
+  | zero => intro v h; simp [aggFits] at h
+  | succ f ih =>
+    intro v h
+    cases v with
+    | scalar n => simp [sameV]
+    | nil => simp [sameV]
+    | ref l => simp [sameV]
+    | agg fs =>
+      simp only [aggFits] at h
+      simp only [sameV, beq_self_eq_true, Bool.true_and]
+      rw [zip_self_all]
+      rw [List.all_eq_true] at h ⊢
+      intro p hp
+      simp [ih p.2 (h p hp)]
+
+/-- every leaf, whatever its bits -/
+theorem sameV_refl_leaf (bits : Nat) : sameV gdepth (.scalar bits) (.scalar bits) = true :=
+  sameV_refl gdepth (.scalar bits) rfl
+
+/-- a struct holding an array holding a leaf, beside a leaf behind an interface-typed member: hypotheses met by a nested value -/
+example : aggFits gdepth (.agg [(0, .agg [(0, .scalar 383), (1, .scalar 60)]), (1, .scalar 718), (2, .ref 5)]) = true := by decide
+
+/-- leaves with different bits are different values, whatever `==` says about them (−0 / +0; two NaN payloads) -/
+theorem sameV_leaf_bits (a b : Nat) : sameV gdepth (.scalar a) (.scalar b) = true ↔ a = b := by
+  simp [gdepth, sameV]
+
+/-- THE CLAUSE for a pointee that is a float leaf of ANY bit pattern (NaN included), through every pointer-answering way of
+    making `types.Any()`: the statement demands the caller's pointer and the code answers it. -/
+theorem ptr_same_pointer_leaf (k : PKind) (hk : k.ptrTyped = true) (σ : GStore) (p : Loc) (bits : Nat)
+    (hp : readG σ.heap p = [(0, .scalar bits)]) :
+    wantSame ⟨k, .any⟩ σ p = some true ∧ (parsePtrP ⟨k, .any⟩ σ p).2 = some (.ref p) := by
+  simp [wantSame, parsePtrP, parsePtrS, takesPtr, underDflt, specKeeps, parseS, hk, hp, sameV_refl_leaf]
+
+/-- `sameValue` with leaves compared by an equality `eq` on content ids (`reflect.Value.Equal` for what Go can compare) -/
+def sameVBy (eq : Nat → Nat → Bool) : Nat → GVal → GVal → Bool
+  | 0, _, _ => false
+  | _ + 1, .scalar n, .scalar m => eq n m
+  | _ + 1, .nil, .nil => true
+  | _ + 1, .ref l, .ref l' => l == l'
+  | f + 1, .agg fs, .agg gs =>
+    fs.length == gs.length && (fs.zip gs).all (fun pq => pq.1.1 == pq.2.1 && sameVBy eq f pq.1.2 pq.2.2)
+  | _ + 1, _, _ => false
+
+/-- validatePointer with that test (no `sameEntries` needed for the witness: the root is no object) -/
+def parsePtrBy (eq : Nat → Nat → Bool) (s : GSchema) (σ : GStore) (p : Loc) : GStore × Option GVal :=
+  match readG σ.heap p with
+  | [(0, v)] =>
+    match (parseS s σ v).2 with
+    | none => ((parseS s σ v).1, none)
+    | some w =>
+      if sameVBy eq gdepth w v then ((parseS s σ v).1, some (.ref p))
+      else ((galloc (parseS s σ v).1 [(0, w)]).1, some (.ref (galloc (parseS s σ v).1 [(0, w)]).2))
+  | _ => (σ, none)
+
+/-- Go's `==` on float leaves, with 383 the id of a NaN, 793 / 163 the ids of −0 / +0: NaN equals nothing, the zeros are equal -/
+def goEq (n m : Nat) : Bool :=
+  if n == 383 || m == 383 then false
+  else if (n == 793 || n == 163) && (m == 793 || m == 163) then true
+  else n == m
+
+/-- with bit identity as the leaf equality the two definitions are the same function (the witness below is about `eq` alone) -/
+theorem sameVBy_beq : ∀ (f : Nat) (v w : GVal), sameVBy (fun n m => n == m) f v w = sameV f v w := by
+  intro f
+  induction f with
+  | zero => intro v w; rfl
+  | succ f ih =>
+    intro v w
+    cases v <;> cases w <;> simp [sameVBy, sameV, ih]
+
+/-- **Witness**: under `==` a value is not always itself — a NaN leaf, and a struct holding one in an array member -/
+theorem eq_variant_not_refl :
+    sameVBy goEq gdepth (.scalar 383) (.scalar 383) = false ∧
+    sameVBy goEq gdepth (.agg [(0, .scalar 60), (1, .agg [(0, .scalar 383)])]) (.agg [(0, .scalar 60), (1, .agg [(0, .scalar 383)])]) = false ∧
+    sameV gdepth (.agg [(0, .scalar 60), (1, .agg [(0, .scalar 383)])]) (.agg [(0, .scalar 60), (1, .agg [(0, .scalar 383)])]) = true := by
+  decide
+
+/-- **Witness**: under `==` two different values are one (−0 and +0); bit identity keeps them apart -/
+theorem eq_variant_conflates_zeros :
+    sameVBy goEq gdepth (.scalar 793) (.scalar 163) = true ∧ sameV gdepth (.scalar 793) (.scalar 163) = false := by decide
+
+/-- cell 2 = the caller's variable holding a NaN -/
+def σnan : GStore := { heap := gupd (fun _ => none) 2 [(0, .scalar 383)], next := 3 }
+
+/-- **Witness (`sameValue` through `reflect.Value.Equal`)**: `AnyPtr().Parse(&nan)`: the statement demands the caller's pointer
+    (`wantSame = some true`), the code as it is answers it (cell 2), the `==` variant answers a pointer of its own (cell 3). -/
+theorem eq_variant_nan_own_pointer :
+    wantSame ⟨.pointer, .any⟩ σnan 2 = some true ∧
+    isRef (parsePtrP ⟨.pointer, .any⟩ σnan 2).2 2 = true ∧
+    isRef (parsePtrBy goEq .any σnan 2).2 3 = true := by decide
+
 end Gozod.C15
